@@ -94,21 +94,30 @@ pub proof fn lemma_polls_due_step(c: nat, e: nat)
     requires e >= 1,
     ensures polls_due(c + 1, e) == polls_due(c, e) + (if c % e == 0 { 1nat } else { 0nat }),
 {
-    let q = c / e;
-    let r = c % e;
-    vstd::arithmetic::div_mod::lemma_fundamental_div_mod(c as int, e as int);
-    assert(c == e * q + r);
+    let q = (c / e) as int;
+    let r = (c % e) as int;
+    let d = e as int;
+    vstd::arithmetic::div_mod::lemma_fundamental_div_mod(c as int, d);
+    assert(c as int == q * d + r) by (nonlinear_arith) requires c as int == d * q + r;
+    assert((q + 1) * d == q * d + d) by (nonlinear_arith);
     if r == 0 {
-        // c + e - 1 = e*q + (e-1);  c + e = e*(q+1) + 0
-        vstd::arithmetic::div_mod::lemma_fundamental_div_mod_converse((c + e - 1) as int, e as int, q as int, (e - 1) as int);
-        assert(e * (q + 1) == e * q + e) by (nonlinear_arith);
-        vstd::arithmetic::div_mod::lemma_fundamental_div_mod_converse((c + e) as int, e as int, (q + 1) as int, 0);
+        // c + e - 1 = q*e + (e-1);  c + e = (q+1)*e + 0
+        vstd::arithmetic::div_mod::lemma_fundamental_div_mod_converse(c as int + d - 1, d, q, d - 1);
+        vstd::arithmetic::div_mod::lemma_fundamental_div_mod_converse(c as int + d, d, q + 1, 0);
     } else {
-        // c + e - 1 = e*(q+1) + (r-1);  c + e = e*(q+1) + r
-        assert(e * (q + 1) == e * q + e) by (nonlinear_arith);
-        vstd::arithmetic::div_mod::lemma_fundamental_div_mod_converse((c + e - 1) as int, e as int, (q + 1) as int, (r - 1) as int);
-        vstd::arithmetic::div_mod::lemma_fundamental_div_mod_converse((c + e) as int, e as int, (q + 1) as int, r as int);
+        // c + e - 1 = (q+1)*e + (r-1);  c + e = (q+1)*e + r
+        vstd::arithmetic::div_mod::lemma_fundamental_div_mod_converse(c as int + d - 1, d, q + 1, r - 1);
+        vstd::arithmetic::div_mod::lemma_fundamental_div_mod_converse(c as int + d, d, q + 1, r);
     }
+    assert(((c + e - 1) as nat) as int == c as int + d - 1);
+    assert(((c + 1 + e - 1) as nat) as int == c as int + d);
+}
+/// more iterations never cost fewer polls
+pub proof fn lemma_polls_due_mono(a: nat, b: nat, e: nat)
+    requires e >= 1, a <= b,
+    ensures polls_due(a, e) <= polls_due(b, e),
+{
+    vstd::arithmetic::div_mod::lemma_div_is_ordered((a + e - 1) as int, (b + e - 1) as int, e as int);
 }
 pub proof fn lemma_polls_due_zero(e: nat)
     requires e >= 1,
@@ -322,6 +331,350 @@ impl VM {
         ensures *r == self.config,
 //@end
 }
+} // verus!
+}
+// ======================================================================================================
+// The contract, written from the property statement.
+// ======================================================================================================
+pub mod wd {
+use vstd::prelude::*;
+use super::*;
+use super::execution::Error;
+use super::vm::{item, ExecuteResult, VM};
+verus! {
+/// the outcome is the stopped-by-watchdog error
+pub open spec fn stopped(r: ExecuteResult) -> bool { r is Err && r->Err_0.payload is StoppedByWatchdog }
+/// "stopped at the first stop answer": the LAST poll made answered stop, every earlier one answered continue
+pub open spec fn stopped_at_first_stop(before: &VM, after: &VM) -> bool {
+    &&& after.polls() > before.polls()
+    &&& answer((after.polls() - 1) as nat)
+    &&& forall|k: nat| before.polls() <= k < after.polls() - 1 ==> !answer(k)
+}
+/// every poll made between the two states answered continue
+pub open spec fn every_poll_continued(before: &VM, after: &VM) -> bool {
+    &&& after.polls() >= before.polls()
+    &&& forall|k: nat| before.polls() <= k < after.polls() ==> !answer(k)
+}
+/// iterations of the copy loop for a size operand `size` under `limit`: a constant size is bounded by the limit and
+/// copied word by word; a symbolic size is one symbolic store (no loop)
+pub open spec fn iterations_for(size: RSV, limit: usize) -> nat {
+    match fold(size).dt() {
+        RSVD::KnownData { value } => copy_iterations(kw_usize(value) as nat, limit as nat),
+        _ => 0,
+    }
+}
+/// the outcome clauses shared by the five functions; `n` = iterations of the loop for this call
+pub open spec fn watchdog_contract(before: &VM, after: &VM, r: ExecuteResult, n: nat) -> bool {
+    &&& stopped(r) ==> stopped_at_first_stop(before, after)
+    &&& !stopped(r) ==> every_poll_continued(before, after)
+    &&& r is Ok ==> after.polls() - before.polls() == polls_due(n, before.interval() as nat)
+    &&& after.polls() - before.polls() <= polls_due(n, before.interval() as nat)
+    &&& after.interval() == before.interval()
+}
+/// loop invariant of the desugared copy loop (state `now`, `count` iterations done, next offset `offset`)
+pub open spec fn copy_loop_inv(start: &VM, now: &VM, count: usize, offset: usize, size_limit: usize, every: usize) -> bool {
+    &&& every == start.interval() && every >= 1 && now.interval() == start.interval()
+    &&& offset < size_limit ==> offset as nat == 32 * (count as nat)
+    &&& offset >= size_limit ==> count as nat == steps_of_32(size_limit as nat)
+    &&& count as nat <= steps_of_32(size_limit as nat)
+    &&& now.polls() - start.polls() == polls_due(count as nat, every as nat)
+    &&& every_poll_continued(start, now)
+}
+} // verus!
+}
+
+pub mod memory {
+use vstd::prelude::*;
+use super::container::Locatable;
+use super::execution::Error;
+use super::vm::{item, lemma_handle_resolved, ExecuteResult, Opcode, CONTRACT_MAXIMUM_SIZE_BYTES, VM};
+use super::wd::*;
+use super::*;
+verus! {
+broadcast use lemma_handle_resolved;
+//@extract file=src/opcode/memory.rs path="struct CallDataCopy" kind=type
+//@end
+//@extract file=src/opcode/memory.rs path="impl Opcode for CallDataCopy" kind=header
+//@end
+//@extract file=src/opcode/memory.rs path="impl Opcode for CallDataCopy|fn execute"
+//@ret r
+// R-STEPBY-ENUM: `for (c, o) in (0..n).step_by(32).enumerate() { BODY }` is `c = 0; o = 0; while o < n { BODY; c += 1; o += 32 }`
+// with the addition checked (the range iterator ends when the next offset does not exist); BODY ($1) is carried over verbatim
+//@rw R-STEPBY-ENUM
+//@old
+for (count, internal_offset) in (0..size_limit).step_by(32).enumerate() {
+$1
+            }
+        } else {
+//@new
+let mut count: usize = 0;
+            let mut internal_offset: usize = 0;
+            while internal_offset < size_limit {
+$1
+                count = count + 1;
+                internal_offset = match internal_offset.checked_add(32) { Some(next) => next, None => usize::MAX };
+            }
+        } else {
+//@spec
+        ensures
+            stopped(r) ==> stopped_at_first_stop(old(vm), final(vm)),                                                     //@ob C13.wd.CallDataCopy.stopped_at_the_first_stop_answer
+            !stopped(r) ==> every_poll_continued(old(vm), final(vm)),                                                      //@ob C13.wd.CallDataCopy.every_poll_continued_unless_stopped
+            r is Ok ==> old(vm).has_thread() && old(vm).stack().len() >= 3 && final(vm).polls() - old(vm).polls()
+                == polls_due(iterations_for(*item(old(vm).stack(), 3), old(vm).config.single_memory_operation_size_limit), old(vm).interval() as nat),      //@ob C13.wd.CallDataCopy.polls_once_per_interval
+            old(vm).has_thread() && old(vm).stack().len() >= 3 ==> final(vm).polls() - old(vm).polls()
+                <= polls_due(iterations_for(*item(old(vm).stack(), 3), old(vm).config.single_memory_operation_size_limit), old(vm).interval() as nat),      //@ob C13.wd.CallDataCopy.never_more_polls_than_promised
+            !(old(vm).has_thread() && old(vm).stack().len() >= 3) ==> final(vm).polls() == old(vm).polls() && r is Err,
+            old(vm).has_thread() && old(vm).stack().len() >= 3 ==> final(vm).has_thread() && final(vm).stack() =~= old(vm).stack().subrange(0, old(vm).stack().len() - 3),      //@ob C13.wd.CallDataCopy.operands_consumed_nothing_pushed
+            final(vm).interval() == old(vm).interval() && final(vm).config == old(vm).config,
+//@loop 1
+                invariant
+                    copy_loop_inv(old(vm), vm, count, internal_offset, size_limit, polling_interval),
+                    vm.has_thread() && vm.stack() == old(vm).stack().subrange(0, old(vm).stack().len() - 3) && vm.config == old(vm).config,
+                    old(vm).has_thread() && old(vm).stack().len() >= 3,
+                    steps_of_32(size_limit as nat) == iterations_for(*item(old(vm).stack(), 3), old(vm).config.single_memory_operation_size_limit),
+                decreases (if internal_offset < size_limit { size_limit - internal_offset } else { 0 }),
+//@proof loopstart #1
+                proof {
+                    assert(polling_interval >= 1);      //@ob C01.wd.CallDataCopy.modulus_not_zero
+                    lemma_polls_due_step(count as nat, polling_interval as nat);
+                    lemma_steps_of_32(size_limit as nat, count as nat);
+                    lemma_polls_due_mono((count + 1) as nat, steps_of_32(size_limit as nat), polling_interval as nat);
+                }
+//@proof entry
+        proof { lemma_polls_due_zero(vm.interval() as nat); }
+//@proof before "let polling_interval"
+            proof { lemma_steps_of_32(size_limit as nat, 0); }
+//@end
+}
+
+//@extract file=src/opcode/memory.rs path="struct CodeCopy" kind=type
+//@end
+//@extract file=src/opcode/memory.rs path="impl Opcode for CodeCopy" kind=header
+//@end
+//@extract file=src/opcode/memory.rs path="impl Opcode for CodeCopy|fn execute"
+//@ret r
+// R-STEPBY-ENUM: `for (c, o) in (0..n).step_by(32).enumerate() { BODY }` is `c = 0; o = 0; while o < n { BODY; c += 1; o += 32 }`
+// with the addition checked (the range iterator ends when the next offset does not exist); BODY ($1) is carried over verbatim
+//@rw R-STEPBY-ENUM
+//@old
+for (count, internal_offset) in (0..size_limit).step_by(32).enumerate() {
+$1
+            }
+        } else {
+//@new
+let mut count: usize = 0;
+            let mut internal_offset: usize = 0;
+            while internal_offset < size_limit {
+$1
+                count = count + 1;
+                internal_offset = match internal_offset.checked_add(32) { Some(next) => next, None => usize::MAX };
+            }
+        } else {
+//@spec
+        ensures
+            stopped(r) ==> stopped_at_first_stop(old(vm), final(vm)),                                                     //@ob C13.wd.CodeCopy.stopped_at_the_first_stop_answer
+            !stopped(r) ==> every_poll_continued(old(vm), final(vm)),                                                      //@ob C13.wd.CodeCopy.every_poll_continued_unless_stopped
+            r is Ok ==> old(vm).has_thread() && old(vm).stack().len() >= 3 && final(vm).polls() - old(vm).polls()
+                == polls_due(iterations_for(*item(old(vm).stack(), 3), CONTRACT_MAXIMUM_SIZE_BYTES), old(vm).interval() as nat),      //@ob C13.wd.CodeCopy.polls_once_per_interval
+            old(vm).has_thread() && old(vm).stack().len() >= 3 ==> final(vm).polls() - old(vm).polls()
+                <= polls_due(iterations_for(*item(old(vm).stack(), 3), CONTRACT_MAXIMUM_SIZE_BYTES), old(vm).interval() as nat),      //@ob C13.wd.CodeCopy.never_more_polls_than_promised
+            !(old(vm).has_thread() && old(vm).stack().len() >= 3) ==> final(vm).polls() == old(vm).polls() && r is Err,
+            old(vm).has_thread() && old(vm).stack().len() >= 3 ==> final(vm).has_thread() && final(vm).stack() =~= old(vm).stack().subrange(0, old(vm).stack().len() - 3),      //@ob C13.wd.CodeCopy.operands_consumed_nothing_pushed
+            final(vm).interval() == old(vm).interval() && final(vm).config == old(vm).config,
+//@loop 1
+                invariant
+                    copy_loop_inv(old(vm), vm, count, internal_offset, size_limit, polling_interval),
+                    vm.has_thread() && vm.stack() == old(vm).stack().subrange(0, old(vm).stack().len() - 3) && vm.config == old(vm).config,
+                    old(vm).has_thread() && old(vm).stack().len() >= 3,
+                    steps_of_32(size_limit as nat) == iterations_for(*item(old(vm).stack(), 3), CONTRACT_MAXIMUM_SIZE_BYTES),
+                decreases (if internal_offset < size_limit { size_limit - internal_offset } else { 0 }),
+//@proof loopstart #1
+                proof {
+                    assert(polling_interval >= 1);      //@ob C01.wd.CodeCopy.modulus_not_zero
+                    lemma_polls_due_step(count as nat, polling_interval as nat);
+                    lemma_steps_of_32(size_limit as nat, count as nat);
+                    lemma_polls_due_mono((count + 1) as nat, steps_of_32(size_limit as nat), polling_interval as nat);
+                }
+//@proof entry
+        proof { lemma_polls_due_zero(vm.interval() as nat); }
+//@proof before "let polling_interval"
+            proof { lemma_steps_of_32(size_limit as nat, 0); }
+//@end
+}
+
+//@extract file=src/opcode/memory.rs path="struct ExtCodeCopy" kind=type
+//@end
+//@extract file=src/opcode/memory.rs path="impl Opcode for ExtCodeCopy" kind=header
+//@end
+//@extract file=src/opcode/memory.rs path="impl Opcode for ExtCodeCopy|fn execute"
+//@ret r
+// R-STEPBY-ENUM: `for (c, o) in (0..n).step_by(32).enumerate() { BODY }` is `c = 0; o = 0; while o < n { BODY; c += 1; o += 32 }`
+// with the addition checked (the range iterator ends when the next offset does not exist); BODY ($1) is carried over verbatim
+//@rw R-STEPBY-ENUM
+//@old
+for (count, internal_offset) in (0..size_limit).step_by(32).enumerate() {
+$1
+            }
+        } else {
+//@new
+let mut count: usize = 0;
+            let mut internal_offset: usize = 0;
+            while internal_offset < size_limit {
+$1
+                count = count + 1;
+                internal_offset = match internal_offset.checked_add(32) { Some(next) => next, None => usize::MAX };
+            }
+        } else {
+//@spec
+        ensures
+            stopped(r) ==> stopped_at_first_stop(old(vm), final(vm)),                                                     //@ob C13.wd.ExtCodeCopy.stopped_at_the_first_stop_answer
+            !stopped(r) ==> every_poll_continued(old(vm), final(vm)),                                                      //@ob C13.wd.ExtCodeCopy.every_poll_continued_unless_stopped
+            r is Ok ==> old(vm).has_thread() && old(vm).stack().len() >= 4 && final(vm).polls() - old(vm).polls()
+                == polls_due(iterations_for(*item(old(vm).stack(), 4), CONTRACT_MAXIMUM_SIZE_BYTES), old(vm).interval() as nat),      //@ob C13.wd.ExtCodeCopy.polls_once_per_interval
+            old(vm).has_thread() && old(vm).stack().len() >= 4 ==> final(vm).polls() - old(vm).polls()
+                <= polls_due(iterations_for(*item(old(vm).stack(), 4), CONTRACT_MAXIMUM_SIZE_BYTES), old(vm).interval() as nat),      //@ob C13.wd.ExtCodeCopy.never_more_polls_than_promised
+            !(old(vm).has_thread() && old(vm).stack().len() >= 4) ==> final(vm).polls() == old(vm).polls() && r is Err,
+            old(vm).has_thread() && old(vm).stack().len() >= 4 ==> final(vm).has_thread() && final(vm).stack() =~= old(vm).stack().subrange(0, old(vm).stack().len() - 4),      //@ob C13.wd.ExtCodeCopy.operands_consumed_nothing_pushed
+            final(vm).interval() == old(vm).interval() && final(vm).config == old(vm).config,
+//@loop 1
+                invariant
+                    copy_loop_inv(old(vm), vm, count, internal_offset, size_limit, polling_interval),
+                    vm.has_thread() && vm.stack() == old(vm).stack().subrange(0, old(vm).stack().len() - 4) && vm.config == old(vm).config,
+                    old(vm).has_thread() && old(vm).stack().len() >= 4,
+                    steps_of_32(size_limit as nat) == iterations_for(*item(old(vm).stack(), 4), CONTRACT_MAXIMUM_SIZE_BYTES),
+                decreases (if internal_offset < size_limit { size_limit - internal_offset } else { 0 }),
+//@proof loopstart #1
+                proof {
+                    assert(polling_interval >= 1);      //@ob C01.wd.ExtCodeCopy.modulus_not_zero
+                    lemma_polls_due_step(count as nat, polling_interval as nat);
+                    lemma_steps_of_32(size_limit as nat, count as nat);
+                    lemma_polls_due_mono((count + 1) as nat, steps_of_32(size_limit as nat), polling_interval as nat);
+                }
+//@proof entry
+        proof { lemma_polls_due_zero(vm.interval() as nat); }
+//@proof before "let polling_interval"
+            proof { lemma_steps_of_32(size_limit as nat, 0); }
+//@end
+}
+
+//@extract file=src/opcode/memory.rs path="struct ReturnDataCopy" kind=type
+//@end
+//@extract file=src/opcode/memory.rs path="impl Opcode for ReturnDataCopy" kind=header
+//@end
+//@extract file=src/opcode/memory.rs path="impl Opcode for ReturnDataCopy|fn execute"
+//@ret r
+// R-STEPBY-ENUM: `for (c, o) in (0..n).step_by(32).enumerate() { BODY }` is `c = 0; o = 0; while o < n { BODY; c += 1; o += 32 }`
+// with the addition checked (the range iterator ends when the next offset does not exist); BODY ($1) is carried over verbatim
+//@rw R-STEPBY-ENUM
+//@old
+for (count, internal_offset) in (0..size_limit).step_by(32).enumerate() {
+$1
+            }
+        } else {
+//@new
+let mut count: usize = 0;
+            let mut internal_offset: usize = 0;
+            while internal_offset < size_limit {
+$1
+                count = count + 1;
+                internal_offset = match internal_offset.checked_add(32) { Some(next) => next, None => usize::MAX };
+            }
+        } else {
+//@spec
+        ensures
+            stopped(r) ==> stopped_at_first_stop(old(vm), final(vm)),                                                     //@ob C13.wd.ReturnDataCopy.stopped_at_the_first_stop_answer
+            !stopped(r) ==> every_poll_continued(old(vm), final(vm)),                                                      //@ob C13.wd.ReturnDataCopy.every_poll_continued_unless_stopped
+            r is Ok ==> old(vm).has_thread() && old(vm).stack().len() >= 3 && final(vm).polls() - old(vm).polls()
+                == polls_due(iterations_for(*item(old(vm).stack(), 3), old(vm).config.single_memory_operation_size_limit), old(vm).interval() as nat),      //@ob C13.wd.ReturnDataCopy.polls_once_per_interval
+            old(vm).has_thread() && old(vm).stack().len() >= 3 ==> final(vm).polls() - old(vm).polls()
+                <= polls_due(iterations_for(*item(old(vm).stack(), 3), old(vm).config.single_memory_operation_size_limit), old(vm).interval() as nat),      //@ob C13.wd.ReturnDataCopy.never_more_polls_than_promised
+            !(old(vm).has_thread() && old(vm).stack().len() >= 3) ==> final(vm).polls() == old(vm).polls() && r is Err,
+            old(vm).has_thread() && old(vm).stack().len() >= 3 ==> final(vm).has_thread() && final(vm).stack() =~= old(vm).stack().subrange(0, old(vm).stack().len() - 3),      //@ob C13.wd.ReturnDataCopy.operands_consumed_nothing_pushed
+            final(vm).interval() == old(vm).interval() && final(vm).config == old(vm).config,
+//@loop 1
+                invariant
+                    copy_loop_inv(old(vm), vm, count, internal_offset, size_limit, polling_interval),
+                    vm.has_thread() && vm.stack() == old(vm).stack().subrange(0, old(vm).stack().len() - 3) && vm.config == old(vm).config,
+                    old(vm).has_thread() && old(vm).stack().len() >= 3,
+                    steps_of_32(size_limit as nat) == iterations_for(*item(old(vm).stack(), 3), old(vm).config.single_memory_operation_size_limit),
+                decreases (if internal_offset < size_limit { size_limit - internal_offset } else { 0 }),
+//@proof loopstart #1
+                proof {
+                    assert(polling_interval >= 1);      //@ob C01.wd.ReturnDataCopy.modulus_not_zero
+                    lemma_polls_due_step(count as nat, polling_interval as nat);
+                    lemma_steps_of_32(size_limit as nat, count as nat);
+                    lemma_polls_due_mono((count + 1) as nat, steps_of_32(size_limit as nat), polling_interval as nat);
+                }
+//@proof entry
+        proof { lemma_polls_due_zero(vm.interval() as nat); }
+//@proof before "let polling_interval"
+            proof { lemma_steps_of_32(size_limit as nat, 0); }
+//@end
+}
+} // verus!
+}
+pub mod control {
+use vstd::prelude::*;
+use super::container::Locatable;
+use super::execution::Error;
+use super::vm::{ExecuteResult, VM};
+use super::wd::*;
+use super::*;
+verus! {
+// (loop_isolation(false): the loop body may use what is known before the loop - here that the ghost `size_operand` is the
+// parameter `ret_size`, which the body's second line shadows, so that no invariant can name it)
+#[verifier::loop_isolation(false)]
+//@extract file=src/opcode/control.rs path="fn store_return_data"
+//@ret r
+// R-STEPBY-ENUM: as in mod memory
+//@rw R-STEPBY-ENUM
+//@old
+for (count, internal_offset) in (0..size_limit).step_by(32).enumerate() {
+$1
+        }
+    } else {
+//@new
+let mut count: usize = 0;
+        let mut internal_offset: usize = 0;
+        while internal_offset < size_limit {
+$1
+            count = count + 1;
+            internal_offset = match internal_offset.checked_add(32) { Some(next) => next, None => usize::MAX };
+        }
+    } else {
+//@spec
+        requires old(vm).interval() >= 1,
+        ensures
+            stopped(r) ==> stopped_at_first_stop(old(vm), final(vm)),                                                     //@ob C13.wd.store_return_data.stopped_at_the_first_stop_answer
+            !stopped(r) ==> every_poll_continued(old(vm), final(vm)),                                                      //@ob C13.wd.store_return_data.every_poll_continued_unless_stopped
+            r is Ok ==> old(vm).has_thread() && final(vm).polls() - old(vm).polls()
+                == polls_due(iterations_for(**ret_size, old(vm).config.single_memory_operation_size_limit), old(vm).interval() as nat),      //@ob C13.wd.store_return_data.polls_once_per_interval
+            final(vm).polls() - old(vm).polls()
+                <= polls_due(iterations_for(**ret_size, old(vm).config.single_memory_operation_size_limit), old(vm).interval() as nat),      //@ob C13.wd.store_return_data.never_more_polls_than_promised
+            !old(vm).has_thread() ==> final(vm).polls() == old(vm).polls() && r is Err,
+            // the helper touches memory only: the caller's operands are gone already, nothing is pushed here
+            final(vm).has_thread() == old(vm).has_thread() && (old(vm).has_thread() ==> final(vm).stack() == old(vm).stack() && final(vm).ip() == old(vm).ip()),      //@ob C13.wd.store_return_data.nothing_pushed
+            final(vm).interval() == old(vm).interval() && final(vm).config == old(vm).config,
+//@loop 1
+            invariant
+                copy_loop_inv(old(vm), vm, count, internal_offset, size_limit, polling_interval),
+                vm.has_thread() && old(vm).has_thread() && vm.stack() == old(vm).stack() && vm.ip() == old(vm).ip() && vm.config == old(vm).config,
+                steps_of_32(size_limit as nat) == iterations_for(**size_operand, old(vm).config.single_memory_operation_size_limit),
+            decreases (if internal_offset < size_limit { size_limit - internal_offset } else { 0 }),
+//@proof loopstart #1
+            proof {
+                assert(polling_interval >= 1);      //@ob C01.wd.store_return_data.modulus_not_zero
+                lemma_polls_due_step(count as nat, polling_interval as nat);
+                lemma_steps_of_32(size_limit as nat, count as nat);
+                lemma_polls_due_mono((count + 1) as nat, steps_of_32(size_limit as nat), polling_interval as nat);
+            }
+//@proof entry
+    // (the parameter `ret_size` is shadowed by its folded form on the second line of the body)
+    let ghost size_operand: &RuntimeBoxedVal = ret_size;
+    proof { lemma_polls_due_zero(vm.interval() as nat); }
+//@proof before "let polling_interval"
+        proof { lemma_steps_of_32(size_limit as nat, 0); }
+//@end
 } // verus!
 }
 fn main() {}
